@@ -782,12 +782,18 @@ impl LinkRelay<OutputHandle> {
                 tx,
                 receiver_settle_mode,
                 more,
+                flow_state,
                 ..
             } => {
                 let settled = transfer.settled.unwrap_or(false);
                 let delivery_id = transfer.delivery_id;
                 let delivery_tag = transfer.delivery_tag.clone();
                 let transfer_more = transfer.more;
+
+                // The last frame of a delivery: the link will consume one credit for it
+                if !transfer.more && !transfer.aborted {
+                    flow_state.on_delivery_queued();
+                }
 
                 tx.send(LinkFrame::Transfer {
                     input_handle: InputHandle::from(transfer.handle.clone()),
